@@ -3,19 +3,19 @@ package main
 func init() {
 	realAll := []string{"all gmsm code involved in the scenario: a scratch copy of /repo's working tree, instrumented by /verif/rewrite (locks, once, atomics, time.Now), built for this run"}
 	props["C19"] = propCfg{
-		Level: "exploration",
-		Quick: tierCfg{Runs: 400000, Deadline: 45, RunMS: 20000, MinimiseS: 20},
-		Thor:  tierCfg{Runs: 40000000, Deadline: 540, RunMS: 20000, MinimiseS: 120},
-		Rule: "each run draws (from one seeded choice stream) a pipeline {PKCS7PaddingReader, PKCS7PaddingWriter+Final, P7BlockEnc->P7BlockDecrypt over stdlib AES/DES-CBC}, block size 8/16, a source length 0..5000 (dense at block and 1 KiB boundaries), per-Read source behaviour (full, short non-EOF, 1 byte, (0,nil), data+EOF), caller buffer sizes 1..4096, write sizes 1..8192, invalid final-block classes, and in the ioerr family one injected source/sink error at a drawn offset; oracle = reference padding model (exact equality fault-free; error surfaced + emitted bytes a prefix under an injected error). distinct_nontrivial = number of distinct run signatures (hash of pipeline, block size, length, the sequence of drawn buffer/write sizes and invalid/fault class); every run is non-trivial (all exercise chunked I/O).",
+		Level:  "exploration",
+		Quick:  tierCfg{Runs: 400000, Deadline: 45, RunMS: 20000, MinimiseS: 20},
+		Thor:   tierCfg{Runs: 40000000, Deadline: 540, RunMS: 20000, MinimiseS: 120},
+		Rule:   "each run draws (from one seeded choice stream) a pipeline {PKCS7PaddingReader, PKCS7PaddingWriter+Final, P7BlockEnc->P7BlockDecrypt over stdlib AES/DES-CBC}, block size 8/16, a source length 0..5000 (dense at block and 1 KiB boundaries), per-Read source behaviour (full, short non-EOF, 1 byte, (0,nil), data+EOF), caller buffer sizes 1..4096, write sizes 1..8192, invalid final-block classes, and in the ioerr family one injected source/sink error at a drawn offset; oracle = reference padding model (exact equality fault-free; error surfaced + emitted bytes a prefix under an injected error). distinct_nontrivial = number of distinct run signatures (hash of pipeline, block size, length, the sequence of drawn buffer/write sizes and invalid/fault class); every run is non-trivial (all exercise chunked I/O).",
 		Real:   realAll,
 		Stubs:  []string{"simio.Source / simio.Sink (simulated reader and writer)", "stdlib crypto/aes, crypto/des CBC as the block mode under the helpers", "refpad reference model"},
 		Assume: []string{"refpad is the PKCS#7 definition (6 lines)", "stdlib CBC is correct"},
 	}
 	props["C04"] = propCfg{
-		Level: "exploration",
-		Quick: tierCfg{Runs: 300000, Deadline: 45, RunMS: 30000, MinimiseS: 20},
-		Thor:  tierCfg{Runs: 30000000, Deadline: 540, RunMS: 30000, MinimiseS: 120},
-		Rule: "each run draws a message length (dense at 0,55,56,63,64,65,119,120,k*64±1, up to 8 KiB; rarely 1-4 MiB), a partition into writes (incl. empty and 1-byte writes, one reused buffer overwritten after Write returns) and an operation history of <=32 ops over {Write, Sum(nil), Sum(prefix with/without spare capacity), Reset, Size}; the same history is applied to the independent reference SM3 and compared after every op; HMAC-SM3 and PBKDF2-SM3 are instantiated over both. distinct_nontrivial = distinct run signatures (hash of message length and the op/chunk sequence).",
+		Level:  "exploration",
+		Quick:  tierCfg{Runs: 300000, Deadline: 45, RunMS: 30000, MinimiseS: 20},
+		Thor:   tierCfg{Runs: 30000000, Deadline: 540, RunMS: 30000, MinimiseS: 120},
+		Rule:   "each run draws a message length (dense at 0,55,56,63,64,65,119,120,k*64±1, up to 8 KiB; rarely 1-4 MiB), a partition into writes (incl. empty and 1-byte writes, one reused buffer overwritten after Write returns) and an operation history of <=32 ops over {Write, Sum(nil), Sum(prefix with/without spare capacity), Reset, Size}; the same history is applied to the independent reference SM3 and compared after every op; HMAC-SM3 and PBKDF2-SM3 are instantiated over both. distinct_nontrivial = distinct run signatures (hash of message length and the op/chunk sequence).",
 		Real:   realAll,
 		Stubs:  []string{"refsm3 (reference SM3 written from GM/T 0004, validated against the standard's examples and 44 OpenSSL vectors)", "stdlib crypto/hmac and x/crypto/pbkdf2 (the definitions being instantiated)"},
 		Assume: []string{"refsm3 equals GM/T 0004 (cross-checked against OpenSSL 3.5.6)"},
@@ -25,12 +25,25 @@ func init() {
 func init() {
 	realAll := []string{"all gmsm code involved in the scenario: a scratch copy of /repo's working tree, instrumented by /verif/rewrite (locks, once, atomics, time.Now), built for this run"}
 	props["C06"] = propCfg{
-		Level: "exploration",
-		Quick: tierCfg{Runs: 12000, Deadline: 70, RunMS: 60000, MinimiseS: 40},
-		Thor:  tierCfg{Runs: 3000000, Deadline: 1500, RunMS: 60000, MinimiseS: 240},
-		Rule:  "each run draws one configuration (server mode x client protocol x suite lists and preference x versions x ClientAuth x client certificate x certificate source x tickets x record sizing x verification setting), payloads 0..200 KiB per direction with drawn write fragments and read buffers, a benign network (segmentation, latency, jitter, short reads, finite windows, read-deadline retries) and a scheduling policy; client and server (real gmtls; stdlib crypto/tls as third implementation on the TLS path) run as tasks over simnet. Oracles: policy model (Appendix A), agreement of both ends, exported keying material, byte streams, independent wire decode. distinct_nontrivial = distinct run signatures (hash of the full parameter vector, network configuration and negotiated outcome).",
-		Real:  realAll,
-		Stubs: []string{"simnet (network)", "virtual clock", "entropy streams (Config.Rand)", "fixture PKI (OpenSSL-generated)", "stdlib crypto/tls peer (TLS path)", "reftls wire decoder (GMSSL path)"},
+		Level:  "exploration",
+		Quick:  tierCfg{Runs: 12000, Deadline: 70, RunMS: 60000, MinimiseS: 40},
+		Thor:   tierCfg{Runs: 3000000, Deadline: 1500, RunMS: 60000, MinimiseS: 240},
+		Rule:   "each run draws one configuration (server mode x client protocol x suite lists and preference x versions x ClientAuth x client certificate x certificate source x tickets x record sizing x verification setting), payloads 0..200 KiB per direction with drawn write fragments and read buffers, a benign network (segmentation, latency, jitter, short reads, finite windows, read-deadline retries) and a scheduling policy; client and server (real gmtls; stdlib crypto/tls as third implementation on the TLS path) run as tasks over simnet. Oracles: policy model (Appendix A), agreement of both ends, exported keying material, byte streams, independent wire decode. distinct_nontrivial = distinct run signatures (hash of the full parameter vector, network configuration and negotiated outcome).",
+		Real:   realAll,
+		Stubs:  []string{"simnet (network)", "virtual clock", "entropy streams (Config.Rand)", "fixture PKI (OpenSSL-generated)", "stdlib crypto/tls peer (TLS path)", "reftls wire decoder (GMSSL path)"},
 		Assume: []string{"policy model encodes only what Config's documentation and GM/T 0024 / RFC 5246 state; ambiguous combinations are 'unspecified'", "reference primitives validated against OpenSSL 3.5.6"},
+	}
+}
+
+func init() {
+	realAll := []string{"all gmsm code involved in the scenario: a scratch copy of /repo's working tree, instrumented by /verif/rewrite (locks, once, atomics, time.Now), built for this run"}
+	props["C07"] = propCfg{
+		Level:  "fault_enumeration",
+		Quick:  tierCfg{Runs: 42000, Deadline: 80, RunMS: 60000, MinimiseS: 40},
+		Thor:   tierCfg{Runs: 4000000, Deadline: 1500, RunMS: 60000, MinimiseS: 240},
+		Rule:   "two families. tls-record-sweep (enumerated): for a seed-chosen small GMSSL session (every record <= 128 bytes) one simulated run per fault position — every bit of every protected record (Finished, data, close_notify) of both directions, every truncation length, extension by 1..32 bytes, drop, duplicate, adjacent swap, length-field+1; run k of the family is position k of session k/12330. tls-record-attack (sampled): payloads up to 16 KiB per write, both GM suites and TLS suites, 15 fault kinds incl. replay of earlier records, cross-direction and cross-connection injection, header rewrites, FIN before/inside a record, on a drawn record under drawn network behaviour and schedules. Oracle: delivered bytes are a prefix of sent bytes after every Read; exactly the plaintext of the records before the first affected one (computed by the independent decoder from the sender's capture and key log); non-EOF sticky error; fatal alert on the wire; IV/nonce/sequence audit of every session. distinct_nontrivial = distinct signatures (suite, fault kind, direction, affected record and its type, bit class / exact position in sweep runs) among runs in which the fault actually fired.",
+		Real:   realAll,
+		Stubs:  []string{"simnet (network)", "attacker relay tasks", "virtual clock", "entropy streams", "fixture PKI", "reftls decoder (expected plaintext per record, alerts, nonce audit)"},
+		Assume: []string{"reftls record layer written from GM/T 0024 / RFC 5246 / RFC 5288, cross-validated by decoding every benign C06 session", "TLS-suite sessions (no reference decoder) use the prefix + detection oracle only"},
 	}
 }
